@@ -123,6 +123,10 @@ KERNELS = [
          ext={"np.unique": ("classes", "Arr")}, until="for i in range(n_classes)", returns=["true_positives", "false_negatives"], skip_float_zeros=True),
     dict(name="f1_counts", file="utils/_metrics.py", func="f1_score", params=[("y_true", "Arr"), ("y_predict", "Arr")], ret="Mat",
          ext={"np.unique": ("classes", "Arr")}, until="for i in range(n_classes)", returns=["true_positives", "false_negatives", "down_precision"], skip_float_zeros=True),
+    # ---- _get_fitness: however the objective values are obtained (serial call or joblib map - both outside the subset and
+    #      replaced by the parameter `value`), the evaluation counter advances by their number and the sign is applied once
+    dict(name="EA_get_fitness", file="base/_ea.py", cls="EvolutionaryAlgorithm", func="_get_fitness", params=[("population_ph", "Arr")], ret="ArrSelf",
+         self_state=["_calls"], self_attrs={"_sign": ("sign", "Int")}, opaque_if={"self._n_jobs > 1": ("value", "value_ext")}),
     # ---- the skeleton of a run: the method calls of fit() become a log of action codes; the results of
     #      _termitation_check() are a stream parameter (1 = stop), `self._on_generation is not None` a Bool parameter
     dict(name="EA_fit", file="base/_ea.py", cls="EvolutionaryAlgorithm", func="fit", params=[], ret="Arr",
@@ -135,10 +139,11 @@ KERNELS = [
          ext_stream={"random_sample": "samples"}),
 ]
 
-LTY = {"Int": "Int", "Arr": "List Int", "Bool": "Bool", "Mat": "List (List Int)", "Self": "List Int", "Tree": "List (List Int)"}
+LTY = {"Int": "Int", "Arr": "List Int", "Bool": "Bool", "Mat": "List (List Int)", "Self": "List Int", "Tree": "List (List Int)",
+       "ArrSelf": "List (List Int)"}
 TREE_ATTR = {"_nodes": "nodes", "_n_args": "nargs"}
 DEFAULT = {"Int": "0", "Arr": "[]", "Bool": "false", "Mat": "[]"}
-RESERVED = ("end", "at", "from", "to", "in", "do", "then", "fun", "match", "with", "open", "by", "s", "us", "ns", "fuel", "rolls", "max", "min", "hi0", "samples", "self", "self_nodes", "self_nargs", "log", "stops", "kb")
+RESERVED = ("end", "at", "from", "to", "in", "do", "then", "fun", "match", "with", "open", "by", "s", "us", "ns", "fuel", "rolls", "max", "min", "hi0", "samples", "self", "self_nodes", "self_nargs", "log", "stops", "kb", "value_ext")
 
 
 class NotRecognised(Exception):
@@ -186,6 +191,7 @@ class Tr:
         self.ext_stream = cfg.get("ext_stream", {})
         self.self_state = cfg.get("self_state", [])
         self.method_uses = cfg.get("method_uses", {})
+        self.opaque_if = cfg.get("opaque_if", {})
         self.actions = cfg.get("actions", {})
         self.bool_stream = cfg.get("bool_stream", {})
         self.not_none = cfg.get("not_none", {})
@@ -238,6 +244,8 @@ class Tr:
             if isinstance(e.slice, ast.Slice) or is_np(e.value, "r_"):
                 return "Arr"
             return {"Mat": "Arr", "Arr": "Int"}.get(self.ty(e.value), "Int")
+        if isinstance(e, ast.BinOp) and isinstance(e.op, ast.Mult) and self.ty(e.left) == "Int" and self.ty(e.right) == "Arr":
+            return "Arr"
         if isinstance(e, ast.Call):
             f = e.func
             nm = callname(f)
@@ -292,6 +300,8 @@ class Tr:
                 self.collect(st.body)
                 if st.orelse:
                     raise NotRecognised("while-else")
+            elif isinstance(st, ast.If) and ast.unparse(st.test) in self.opaque_if:
+                self.setlocal(self.opaque_if[ast.unparse(st.test)][0], "Arr")
             elif isinstance(st, ast.If):
                 self.collect(st.body)
                 self.collect(st.orelse)
@@ -513,6 +523,8 @@ class Tr:
             if self.roll_stream and isinstance(e.op, ast.Mult) and (self.is_rr(e.left) or self.is_rr(e.right)):
                 raise NotRecognised("roll expression outside an assignment")
             a, b = self.E(e.left, env), self.E(e.right, env)
+            if isinstance(e.op, ast.Mult) and self.ty(e.left) == "Int" and self.ty(e.right) == "Arr":
+                return f"(({b}).map fun v => {a} * v)"
             if isinstance(e.op, ast.Add):
                 return f"({a} + {b})"
             if isinstance(e.op, ast.Sub):
@@ -842,6 +854,15 @@ class Tr:
             env = self.pre([st.value], L)
             L.append(f"{{ s with {n} := s.{n} {op} {self.E(st.value, env)} }}")
             return L
+        if isinstance(st, ast.If) and ast.unparse(st.test) in self.opaque_if:
+            var, par = self.opaque_if[ast.unparse(st.test)]
+            # both branches must do nothing but compute `var` (by means outside the subset)
+            assigned = {t.id for b in (st.body, st.orelse) for x in b for n_ in ast.walk(x) if isinstance(n_, ast.Assign) for t in n_.targets if isinstance(t, ast.Name)}
+            if var not in assigned or any(isinstance(n_, (ast.AugAssign, ast.Return, ast.Raise)) or (isinstance(n_, ast.Assign) and any(isinstance(t, ast.Attribute) for t in n_.targets))
+                                          for b in (st.body, st.orelse) for x in b for n_ in ast.walk(x)):
+                raise NotRecognised("the opaque branches do more than compute " + var)
+            L.append(f"{{ s with {self.id(var)} := {par} }}")
+            return L
         if isinstance(st, ast.If):
             env = self.pre([st.test], L)
             L.append(f"(if {self.B(st.test, env)} then\n{self.block(st.body, ind + 1)}\n{pad}else\n{self.block(st.orelse, ind + 1)})")
@@ -948,6 +969,13 @@ class Tr:
                     raise NotRecognised("returned structure")
             walk(last.value)
             lines.append(f"{pad}if s.err || s.dry then none else some ([" + ", ".join(flatn) + "])")
+        elif isinstance(last, ast.Return) and self.cfg["ret"] == "ArrSelf":
+            L = []
+            env = self.pre([last.value], L)
+            for ln in L:
+                lines.append(f"{pad}let s := {ln}")
+            selfl = "[" + ", ".join(f"s.self{a}" for a in self.self_state) + "]"
+            lines.append(f"{pad}if s.err || s.dry then none else some ([{self.E(last.value, env)}, {selfl}])")
         elif isinstance(last, ast.Return) and self.cfg.get("returns_log"):
             lines.append(f"{pad}if s.err || s.dry then none else some (s.log)")
         elif isinstance(last, ast.Return) and self.cfg["ret"] == "Tree":
@@ -1005,6 +1033,7 @@ class Tr:
         if self.roll_stream:
             extra += " (rolls : List Int)"
         extra += "".join(f" ({v} : List (List Int))" for v in self.ext_stream.values())
+        extra += "".join(f" ({par} : List Int)" for _, par in self.opaque_if.values())
         extra += "".join(f" ({v} : Bool)" for v in self.not_none.values())
         extra += "".join(f" ({par} : List Int)" for par, _ in self.bool_stream.values())
         imports = "".join(f"import TFV.Generated.Src.{u}\n" for u in list(self.uses) + list(self.method_uses.values()) + list(self.tree_methods.values()))
